@@ -152,19 +152,19 @@ type DepM struct {
 }
 
 type BlockAddrM struct {
-	Steps               []StepM `json:"steps"`
-	FriendlyName        string  `json:"friendly,omitempty"`
-	Scope               string  `json:"scope,omitempty"`
-	AsReference         bool    `json:"asReference,omitempty"`
-	BodyAsData          bool    `json:"bodyAsData,omitempty"`
-	InferBody           bool    `json:"inferBody,omitempty"`
-	BodySelfRef         bool    `json:"bodySelfRef,omitempty"`
-	AsTypeOf            string  `json:"asTypeOf,omitempty"` // attribute name; "" = none
-	HasAsTypeOf         bool    `json:"hasAsTypeOf,omitempty"`
-	DepBodyAsData       bool    `json:"depBodyAsData,omitempty"`
-	InferDepBody        bool    `json:"inferDepBody,omitempty"`
-	UnknownNestedRefs   bool    `json:"unknownNestedRefs,omitempty"`
-	DepBodySelfRef      bool    `json:"depBodySelfRef,omitempty"`
+	Steps             []StepM `json:"steps"`
+	FriendlyName      string  `json:"friendly,omitempty"`
+	Scope             string  `json:"scope,omitempty"`
+	AsReference       bool    `json:"asReference,omitempty"`
+	BodyAsData        bool    `json:"bodyAsData,omitempty"`
+	InferBody         bool    `json:"inferBody,omitempty"`
+	BodySelfRef       bool    `json:"bodySelfRef,omitempty"`
+	AsTypeOf          string  `json:"asTypeOf,omitempty"` // attribute name; "" = none
+	HasAsTypeOf       bool    `json:"hasAsTypeOf,omitempty"`
+	DepBodyAsData     bool    `json:"depBodyAsData,omitempty"`
+	InferDepBody      bool    `json:"inferDepBody,omitempty"`
+	UnknownNestedRefs bool    `json:"unknownNestedRefs,omitempty"`
+	DepBodySelfRef    bool    `json:"depBodySelfRef,omitempty"`
 }
 
 type BlockM struct {
@@ -203,9 +203,9 @@ type LinkM struct {
 }
 
 type RangeM struct {
-	File               string `json:"file"`
-	SL, SC, SB         int
-	EL, EC, EB         int
+	File       string `json:"file"`
+	SL, SC, SB int
+	EL, EC, EB int
 }
 
 type TargetM struct {
